@@ -35,13 +35,22 @@ if ROUND == "r4":
     REBASED = {k: f"/tmp/rebased/{k.replace('-mutant', '-r4-mutant')}/patch.diff" for k in ("C01-mutant-a", "C01-mutant-b", "C11-mutant-b", "C16-mutant-b")}
     EXTRA = json.load(open(os.environ["SEED_EXTRA"])) if os.environ.get("SEED_EXTRA") else {}
 
-if ROUND in ("r5", "r6", "r7"):
+if ROUND in ("r5", "r6", "r7", "r8"):
     PKG, RACE_DEMO, REBASED = {}, set(), {}
     EXTRA = json.load(open(os.environ["SEED_EXTRA"])) if os.environ.get("SEED_EXTRA") else {}
 
-def sh(cmd, cwd=None, timeout=1800):
-    p = subprocess.run(cmd, shell=True, cwd=cwd, env=ENV, capture_output=True, text=True, timeout=timeout)
-    return p.returncode, p.stdout + p.stderr
+def sh(cmd, cwd=None, timeout=3600):
+    # own process group, so that a check that runs into the timeout can be ended as a whole
+    p = subprocess.Popen(cmd, shell=True, cwd=cwd, env=ENV, stdout=subprocess.PIPE, stderr=subprocess.STDOUT, text=True, start_new_session=True)
+    try:
+        out, _ = p.communicate(timeout=timeout)
+        return p.returncode, out
+    except subprocess.TimeoutExpired:
+        import signal
+        try: os.killpg(p.pid, signal.SIGKILL)
+        except Exception: pass
+        out, _ = p.communicate()
+        return 124, (out or "") + "\n[seeded_all: timed out after %d s]" % timeout
 
 def demo(pkgdir, d, race, src=None):
     src = src or f"{d}/demo_test.go"
